@@ -935,3 +935,157 @@ func TestVerifC12LeveledConcurrent(t *testing.T) {
 		c.Sample(map[string]any{"kind": kind.Name, "v2": v2, "nodes": nodes, "pauseAt": pauseAt, "trace": trace})
 	})
 }
+
+// ---------------------------------------------------------------- cpuset targets in another spelling
+//
+// The kernel shows a cpuset in its canonical list format ("0-1,3"); the updater API accepts any legal spelling of the target
+// ("0,1,3", "3,0-1", "0-0,1,3"). A file whose cpus are unchanged must not be rewritten however the target is spelled.
+func c12Respell(t *rapid.T, ids []int, label string) string {
+	switch rapid.IntRange(0, 3).Draw(t, label) {
+	case 0: // canonical
+		return cpuset.NewCPUSet(ids...).String()
+	case 1: // plain comma list, ascending
+		s := make([]string, len(ids))
+		sorted := append([]int(nil), ids...)
+		sort.Ints(sorted)
+		for i, v := range sorted {
+			s[i] = fmt.Sprint(v)
+		}
+		return strings.Join(s, ",")
+	case 2: // plain comma list, descending
+		s := make([]string, len(ids))
+		sorted := append([]int(nil), ids...)
+		sort.Sort(sort.Reverse(sort.IntSlice(sorted)))
+		for i, v := range sorted {
+			s[i] = fmt.Sprint(v)
+		}
+		return strings.Join(s, ",")
+	default: // single-cpu ranges
+		s := make([]string, len(ids))
+		sorted := append([]int(nil), ids...)
+		sort.Ints(sorted)
+		for i, v := range sorted {
+			s[i] = fmt.Sprintf("%d-%d", v, v)
+		}
+		return strings.Join(s, ",")
+	}
+}
+
+func TestVerifC12CPUSetSpelling(t *testing.T) {
+	rec := vk.New(t, "C12", "cpusetSpelling")
+	helper := sysutil.NewFileTestUtil(t)
+	defer helper.Cleanup()
+	sentinel := time.Date(2001, 1, 1, 0, 0, 0, 0, time.UTC)
+	var kind c12Kind
+	for _, k := range c12Kinds {
+		if k.IsCPUSet {
+			kind = k
+		}
+	}
+
+	rapid.Check(t, func(t *rapid.T) {
+		c := rec.Begin()
+		defer c.End()
+		c12CaseSeq++
+		root := fmt.Sprintf("c12spell%d", c12CaseSeq)
+		v2 := rapid.Bool().Draw(t, "cgroupV2")
+		helper.SetCgroupsV2(v2)
+		defer helper.SetCgroupsV2(false)
+		res, err := sysutil.GetCgroupResource(kind.Name)
+		if err != nil {
+			t.Fatalf("harness: %v", err)
+		}
+		depth := rapid.IntRange(2, 3).Draw(t, "depth")
+		nodes := []c12Node{{Dir: root + "/kubepods", Level: 0, Parent: -1}}
+		frontier := []int{0}
+		for lvl := 1; lvl < depth; lvl++ {
+			var next []int
+			for _, p := range frontier {
+				fan := rapid.IntRange(1, 2).Draw(t, "fanout")
+				for k := 0; k < fan; k++ {
+					nodes = append(nodes, c12Node{Dir: fmt.Sprintf("%s/n%d", nodes[p].Dir, k), Level: lvl, Parent: p})
+					next = append(next, len(nodes)-1)
+				}
+			}
+			frontier = next
+		}
+		old := c12GenAssign(t, kind, nodes, "old")
+		target := old
+		if !rapid.Bool().Draw(t, "targetEqualsOld") {
+			target = c12GenAssign(t, kind, nodes, "new")
+			for i := range nodes { // keep a good share of nodes unchanged
+				if rapid.Bool().Draw(t, "keepNode") && (nodes[i].Parent < 0 || cpuset.NewCPUSet(old.Sets[i]...).IsSubsetOf(cpuset.NewCPUSet(target.Sets[nodes[i].Parent]...))) {
+					ok := true
+					for j := range nodes { // its children of the target must stay inside it
+						if nodes[j].Parent == i && !cpuset.NewCPUSet(target.Sets[j]...).IsSubsetOf(cpuset.NewCPUSet(old.Sets[i]...)) {
+							ok = false
+						}
+					}
+					if ok {
+						target.Sets[i] = old.Sets[i]
+					}
+				}
+			}
+		}
+		paths := make([]string, len(nodes))
+		spelled := make([]string, len(nodes))
+		respelledUnchanged := false
+		for i, n := range nodes {
+			paths[i] = res.Path(n.Dir)
+			if err := os.MkdirAll(filepath.Dir(paths[i]), 0o777); err != nil {
+				t.Fatalf("harness: %v", err)
+			}
+			canon := cpuset.NewCPUSet(old.Sets[i]...).String() // what the kernel shows
+			if err := os.WriteFile(paths[i], []byte(canon), 0o644); err != nil {
+				t.Fatalf("harness: %v", err)
+			}
+			_ = os.Chtimes(paths[i], sentinel, sentinel)
+			spelled[i] = c12Respell(t, target.Sets[i], "spelling")
+			if target.same(kind, old, i) && spelled[i] != canon {
+				respelledUnchanged = true
+			}
+		}
+		caseRoots, _ := filepath.Glob(filepath.Join(helper.TempDir, "*", root))
+		defer func() {
+			os.RemoveAll(filepath.Join(helper.TempDir, root))
+			for _, d := range caseRoots {
+				os.RemoveAll(d)
+			}
+		}()
+		e := &ResourceUpdateExecutorImpl{ResourceCache: cache.NewCacheDefault(), Config: NewDefaultConfig()}
+		e.Config.ResourceForceUpdateSeconds = 24 * 3600
+		stop := make(chan struct{})
+		defer close(stop)
+		e.Run(stop)
+		lv := make([][]ResourceUpdater, depth)
+		for i, n := range nodes {
+			u, err := DefaultCgroupUpdaterFactory.New(kind.Name, n.Dir, spelled[i], nil)
+			if err != nil {
+				t.Fatalf("harness: %v", err)
+			}
+			lv[n.Level] = append(lv[n.Level], u)
+		}
+		e.LeveledUpdateBatch(lv)
+		for i, n := range nodes {
+			b, _ := os.ReadFile(paths[i])
+			cur := strings.Trim(string(b), "\n")
+			got, err := cpuset.Parse(cur)
+			if err != nil || !got.Equals(cpuset.NewCPUSet(target.Sets[i]...)) {
+				c.Violation(t, "spelling:final-not-target", "%s holds %q, target %q (set %v); old=%v", n.Dir, cur, spelled[i], target.Sets[i], old.Sets)
+				return
+			}
+			if target.same(kind, old, i) {
+				if st, err := os.Stat(paths[i]); err == nil && !st.ModTime().Equal(sentinel) {
+					c.Violation(t, "spelling:unchanged-cpuset-rewritten", "%s: cpus unchanged (%v, file held %q) but rewritten with the target spelled %q; nodes=%v old=%v target=%v", n.Dir, old.Sets[i], cpuset.NewCPUSet(old.Sets[i]...).String(), spelled[i], nodes, old.Sets, target.Sets)
+					return
+				}
+			}
+		}
+		c.ClassIf(v2, "cgroup-v2")
+		c.ClassIf(respelledUnchanged, "unchanged-cpuset-with-target-spelled-differently-from-the-file")
+		if respelledUnchanged {
+			c.NonTrivial(v2, fmt.Sprint(nodes), fmt.Sprint(old), fmt.Sprint(spelled))
+		}
+		c.Sample(map[string]any{"v2": v2, "nodes": nodes, "old": old.Sets, "spelled": spelled})
+	})
+}
